@@ -17,6 +17,13 @@ def run(pid, tier, seed, known):
     res = {'standins': [{'kind': 'native bounded search of the property oracle',
                          'bound': entry.get('bound') or ('families enumerated by replay/%s.py for the %s tier (see its docstring and families())' % (mod, tier)), 'status': out.get('status'),
                          'tried': out.get('tried')}], 'lines': [], 'violations': 0}
+    if out.get('truncated_at'):
+        # the enumeration order is fixed (smaller histories first): the bound explored is the
+        # first `truncated_at` cases of the stated families, not all of them
+        res['standins'][0]['truncated_at'] = out['truncated_at']
+        res['standins'][0]['bound'] += ' - CUT after the first %d cases of that enumeration' % out['truncated_at']
+    if out.get('bound') and not entry.get('bound'):
+        res['standins'][0]['bound'] = out['bound']
     if out.get('status') == 'reproduced':
         ob = {'name': 'bounded[%s]' % pid, 'kind': 'bounded', 'role': 'prop', 'result': 'native',
               'contract': None}
